@@ -24,6 +24,7 @@ import os
 import sys
 from fractions import Fraction
 
+MATH_NAMES = ('sqrt', 'cos', 'sin', 'tan', 'atan2', 'hypot', 'radians', 'pi')
 SIZES = {'Vec2': 2, 'Vec3': 3, 'Vec4': 4, 'Mat3': 9, 'Mat4': 16}
 VTYPE = {2: 'V2', 3: 'V3', 4: 'V4', 9: 'V9', 16: 'V16'}
 
@@ -84,6 +85,24 @@ TARGETS += [
     ('Mat4.from_scale', 'Mat4', 'from_scale', ['Vec3']),
     ('Mat4.translate', 'Mat4', 'translate', ['Vec3']),
 ]
+# second round: the remaining transforms, rows/columns, rounding
+TARGETS += [
+    ('Mat4.scale', 'Mat4', 'scale', ['Vec3']),
+    ('Mat4.rotate', 'Mat4', 'rotate', ['s', 'Vec3']),
+    ('Mat4.from_rotation', 'Mat4', 'from_rotation', ['s', 'Vec3']),
+    ('Mat4.perspective_projection', 'Mat4', 'perspective_projection', ['s'] * 7),
+    ('Mat4.perspective_projection/fov60', 'Mat4', 'perspective_projection', ['s'] * 6),
+    ('Mat4.look_at', 'Mat4', 'look_at', ['Vec3', 'Vec3', 'Vec3']),
+    ('Mat3.scale', 'Mat3', 'scale', ['s', 's']),
+    ('Mat3.translate', 'Mat3', 'translate', ['s', 's']),
+    ('Mat3.rotate', 'Mat3', 'rotate', ['s']),
+    ('Mat3.shear', 'Mat3', 'shear', ['s', 's']),
+]
+TARGETS += [('Mat4.row/%d' % _k, 'Mat4', 'row', [('c', _k)]) for _k in range(4)]
+TARGETS += [('Mat4.column/%d' % _k, 'Mat4', 'column', [('c', _k)]) for _k in range(4)]
+for _c in ('Vec2', 'Vec3', 'Vec4', 'Mat3', 'Mat4'):
+    TARGETS += [('%s.__round__/n' % _c, _c, '__round__', []),
+                ('%s.__round__/2' % _c, _c, '__round__', [('c', 2)])]
 
 
 class Unsupported(Exception):
@@ -233,6 +252,7 @@ class Run:
     def __init__(self, mod, decisions):
         self.mod, self.decisions, self.pos = mod, decisions, 0
         self.warned = False
+        self.pre = True          # conjunction of the asserts on symbolic values
         self.steps = 0
         self.depth = 0
 
@@ -357,7 +377,13 @@ class Run:
             c = self.truth(self.ev(st.test, env, cls))
             if c is True:
                 return
-            raise Unsupported('assert that is not decided by the shapes: `%s`'
+            if isinstance(c, SymB):
+                # a precondition on the data: the run continues as if it held
+                # (Python raises AssertionError otherwise); recorded in <name>_pre
+                self.pre = c if self.pre is True else SymB(
+                    ('andb', bexpr_of(self.pre), c.e))
+                return
+            raise Unsupported('assert that always fails: `%s`'
                               % ast.unparse(st.test)[:60])
         if isinstance(st, ast.Assign):
             v = self.ev(st.value, env, cls)
@@ -572,7 +598,7 @@ class Run:
                 return Builtin('op.mul')
             if n.id in ('len', 'tuple', 'list', 'sum', 'map', 'zip', 'range', 'enumerate',
                         'abs', 'min', 'max', 'type', 'isinstance', 'reversed', 'all',
-                        'any', 'super', 'float'):
+                        'any', 'super', 'float', 'round'):
                 return Builtin(n.id)
             raise Unsupported('name %s' % n.id)
         if isinstance(n, ast.BinOp):
@@ -663,12 +689,13 @@ class Run:
             return v.items[self.index(self.ev(n.slice, env, cls), len(v.items))]
         if isinstance(n, ast.Attribute):
             base = ast.unparse(n)
-            if base in ('_math.sqrt', '_math.cos', '_math.sin', '_math.atan2',
-                        '_math.hypot', 'math.sqrt', 'math.cos', 'math.sin',
-                        'math.atan2', 'math.hypot'):
+            if base in ('_math.' + x for x in MATH_NAMES) or base in (
+                    'math.' + x for x in MATH_NAMES):
                 root = base.split('.')[0]
                 if self.mod.aliases.get(root) != ('module', 'math'):
                     raise Unsupported('%s is not the math module' % root)
+                if n.attr == 'pi':
+                    return Sym(('pi',))
                 return Builtin('math.' + n.attr)
             v = self.ev(n.value, env, cls)
             if isinstance(v, Tup) and v.cls in SIZES:
@@ -763,8 +790,18 @@ class Run:
     def builtin(self, name, args, cls):
         if name.startswith('func:'):
             return self.call_function(self.mod.funcs[name[5:]], args, {}, None)
-        if name in ('math.sqrt', 'math.cos', 'math.sin') and len(args) == 1:
+        if name in ('math.sqrt', 'math.cos', 'math.sin', 'math.tan', 'math.radians') \
+                and len(args) == 1:
             return Sym((name[5:], expr_of(args[0])))
+        if name == 'round' and 1 <= len(args) <= 2 and is_scalar(args[0]):
+            nd = args[1] if len(args) == 2 else None
+            if nd is None:
+                nd = 0                    # round(x) is round(x, 0) as a number
+            elif isinstance(nd, Num) and nd.isint:
+                nd = int(nd.v)
+            else:
+                raise Unsupported('round with a number of digits that is not a constant')
+            return Sym(('round', expr_of(args[0]), nd))
         if name == 'math.atan2' and len(args) == 2:
             return Sym(('atan2', expr_of(args[0]), expr_of(args[1])))
         if name == 'math.hypot' and len(args) >= 1:
@@ -896,7 +933,7 @@ def symbolic_args(mod, cls, name, shapes):
             params.append(('s', [pn]))
             vals.append(Sym(('var', pn)))
         elif isinstance(sh, tuple) and sh[0] == 'c':
-            vals.append(Num(sh[1], isinstance(sh[1], int)))
+            vals.append(None if sh[1] is None else Num(sh[1], isinstance(sh[1], int)))
         else:
             vals.append(inst(sh))
     return recv, vals, params
@@ -922,18 +959,18 @@ def run_target(mod, key, cls, name, shapes):
             raise Unsupported('break/continue outside a loop')
         except RecursionError:
             raise Unsupported('recursion')
-        return out, r.warned
+        return out, r.warned, r.pre
 
     def drive(decisions):
         try:
             return once(decisions)
         except Fork as f:
-            a, wa = drive(decisions + (True,))
-            b, wb = drive(decisions + (False,))
+            a, wa, pa = drive(decisions + (True,))
+            b, wb, pb = drive(decisions + (False,))
             c = f.cond
-            return merge(c, a, b), merge(c, wa, wb)
+            return merge(c, a, b), merge(c, wa, wb), merge(c, pa, pb)
 
-    out, warned = drive(())
+    out, warned, pre = drive(())
     if out is None:
         raise Unsupported('returns None')
     if isinstance(out, Tup):
@@ -943,7 +980,7 @@ def run_target(mod, key, cls, name, shapes):
             raise Unsupported('returns a tuple whose entries are not numbers')
     elif not is_scalar(out):
         raise Unsupported('returns %s' % type(out).__name__)
-    return params, out, warned
+    return params, out, warned, pre
 
 
 # ---------------------------------------------------------------- printing
@@ -976,8 +1013,12 @@ def _pe(e, names):
                                r(e[2]))
     if t == 'opp':
         return '(- %s)' % r(e[1])
-    if t in ('sqrt', 'cos', 'sin'):
+    if t in ('sqrt', 'cos', 'sin', 'tan', 'radians'):
         return '(g%s %s)' % (t, r(e[1]))
+    if t == 'pi':
+        return 'gpi'
+    if t == 'round':
+        return '(ground %s %s)' % (r(e[1]), pz(e[2]))
     if t == 'atan2':
         return '(gatan2 %s %s)' % (r(e[1]), r(e[2]))
     if t == 'ite':
@@ -1002,7 +1043,7 @@ def with_lets(e):
     count, size, order = {}, {}, []
 
     def walk(x):
-        if x[0] in ('var', 'lit', 'true', 'false'):
+        if x[0] in ('var', 'lit', 'true', 'false', 'pi'):
             size[x] = 1
             return
         if x in count:
@@ -1060,7 +1101,9 @@ HEADER = '''(* GENERATED by harness/pymath2coq.py from desper/math.py -- DO NOT 
      x ** n -> products;  if d: -> if negb (geqb d 0);  a > b -> gltb b a;
      a >= b -> negb (gltb a b);  max(a, b) -> if gltb a b then b else a;
      min(a, b) -> if gltb b a then b else a;  abs(x) -> if gltb x 0 then - x else x;
-     sum(...) -> 0 + x0 + x1 ...;  float and int literals -> exact rationals. *)
+     sum(...) -> 0 + x0 + x1 ...;  float and int literals -> exact rationals;
+     round(x, n) -> ground x n;  an assert on the data -> <name>_pre (the
+     definitions describe the result when it holds; Python raises otherwise). *)
 From Coq Require Import ZArith List String Bool.
 From Desper Require Import Math.Sig.
 Import ListNotations.
@@ -1082,7 +1125,7 @@ def emit(mod, refused):
     for key, cls, name, shapes in TARGETS:
         cn = coq_name(key)
         try:
-            params, out, warned = run_target(mod, key, cls, name, shapes)
+            params, out, warned, pre = run_target(mod, key, cls, name, shapes)
             flat = [x for _, ns in params for x in ns]
             binder = ' (%s : T)' % ' '.join(flat) if flat else ''
             head = '{T : Type} {O : ops T}' + binder
@@ -1094,7 +1137,11 @@ def emit(mod, refused):
                 ents.append(en)
                 body.append(wrap('Definition %s %s : T :=\n  %s.' % (en, head, with_lets(expr_of(it)))))
             has_warn = warned is not False
+            has_pre = pre is not True
             wn = cn + '_warn'
+            if has_pre:
+                body.append(wrap('Definition %s_pre %s : bool :=\n  %s.' % (
+                    cn, head, with_lets(bexpr_of(pre)))))
             if has_warn:
                 body.append(wrap('Definition %s %s : bool :=\n  %s.' % (
                     wn, head, with_lets(bexpr_of(warned)))))
@@ -1124,13 +1171,17 @@ def emit(mod, refused):
             if has_warn:
                 body.append(wrap('Definition %s_w {T : Type} {O : ops T} %s : bool :=\n  %s %s.'
                                  % (cn, ' '.join(tb), ' '.join(lets), call(wn))))
+            if has_pre:
+                body.append(wrap('Definition %s_p {T : Type} {O : ops T} %s : bool :=\n  %s %s.'
+                                 % (cn, ' '.join(tb), ' '.join(lets), call(cn + '_pre'))))
             lines.append('(* %s%s *)\n' % (key, ''.join(
                 ' ' + (s if isinstance(s, str) else repr(s[1])) for s in shapes)))
             lines.append('\n'.join(body) + '\n\n')
-            table.append(wrap('  ("%s", fun xs => match xs with | [%s] => Some (%s, %s) '
-                              '| _ => None end)' % (
-                                  key, '; '.join(flat), lst_out,
-                                  tcall(cn + '_w') if has_warn else 'false'), '      '))
+            some = 'Some (%s, %s)' % (lst_out, tcall(cn + '_w') if has_warn else 'false')
+            if has_pre:
+                some = 'if %s then %s else None' % (tcall(cn + '_p'), some)
+            table.append(wrap('  ("%s", fun xs => match xs with | [%s] => %s '
+                              '| _ => None end)' % (key, '; '.join(flat), some), '      '))
             names += ents + [cn]
         except Unsupported as ex:
             refused.append((key, str(ex)))
